@@ -65,7 +65,7 @@ pub fn run(args: &Args) -> i32 {
         let mut rng = case.rng.fork();
         // workload
         let kind = rng.below(30);
-        let (mut bytes, desc, wclass) = if kind < 15 {
+        let (mut bytes, desc, wclass) = if kind < 12 {
             let opts = jxlgen::imggen::ImgOpts { size_class: *rng.pick(&[2u32, 3, 3, 1]), max_dim: if thorough { 700 } else { 400 }, group_size_shift: Some(0), ..Default::default() };
             let mut g = None;
             for _ in 0..20 {
@@ -80,6 +80,23 @@ pub fn run(args: &Args) -> i32 {
             };
             let multi = i.fh.num_groups() > 1;
             (i.bytes.clone(), format!("{} | {}", i.desc, i.enc_desc), if multi { "modular-multigroup" } else { "modular-1group" })
+        } else if kind < 22 {
+            // feature frames (restoration filters, upsampling, noise, patches, YCbCr; multi-frame with
+            // filters) from the region checker's generator: full renders only
+            let mut g = None;
+            for _ in 0..20 {
+                let r = if rng.chance(1, 4) { crate::c06::gen_multi(&mut rng, 400, &Default::default()) } else { crate::c06::gen_single(&mut rng, if thorough { 700 } else { 520 }, &Default::default()) };
+                if let Some(i) = r {
+                    g = Some(i);
+                    break;
+                }
+            }
+            let Some(i) = g else {
+                case.inconclusive("generator gave up");
+                return;
+            };
+            let noise = i.feat.contains("noise");
+            (i.bytes.clone(), i.desc.clone(), if noise { "features-noise" } else { "features" })
         } else if kind < 29 {
             let opts = jxlgen::anim::AnimOpts { max_frames: 6, max_dim: if rng.chance(1, 3) { 300 } else { 48 }, multi_group: true, ..Default::default() };
             let mut g = None;
